@@ -411,6 +411,39 @@ func txDidSequence(s *Stream) {
 	e.c.Commit()
 }
 
+// txSponsor: a fixed history for C15's "for an add-record submitted with a named fee payer that is the fee payer, never
+// the writer": the named sponsor cannot afford the fee while the writer could — the transaction is refused and nobody is
+// charged; with a solvent sponsor the sponsor pays and the writer's balance does not move.
+func txSponsor(s *Stream) {
+	e := newTxEnv(s)
+	s.Emit("reset", "-")
+	var al []string
+	for _, a := range e.accts {
+		al = append(al, fmt.Sprintf("%s:%d", hx(a.Addr), 1000))
+	}
+	al[len(al)-1] = hx(e.accts[4].Addr) + ":none"
+	s.Emit("tx.genesis "+strings.Join(al, ","), "-")
+	s.Emit(fmt.Sprintf("now %d", e.c.Time.UnixNano()), "-")
+	O, W, S := e.accts[0], e.accts[1], e.accts[2]
+	run := func(fee int64, m sdk.Msg, sp ...SignerSpec) {
+		e.deliver(txPlan{msgs: []sdk.Msg{m}, signers: sp, fee: fee, mode: signing.SignMode_SIGN_MODE_DIRECT})
+		e.state()
+	}
+	run(1, &aoltypes.MsgCreateTopicRequest{TopicName: "t", Description: "d", OwnerAddress: O.Bech()}, SignerSpec{Acct: O})
+	run(1, &aoltypes.MsgAddWriterRequest{TopicName: "t", Moniker: "m", WriterAddress: W.Bech(), OwnerAddress: O.Bech()}, SignerSpec{Acct: O})
+	run(997, &aoltypes.MsgCreateTopicRequest{TopicName: "s", Description: "d", OwnerAddress: S.Bech()}, SignerSpec{Acct: S}) // the sponsor is left with 3
+	rec := func(payer *Acct) sdk.Msg {
+		return &aoltypes.MsgAddRecordRequest{TopicName: "t", Key: []byte("k"), Value: []byte("v"), WriterAddress: W.Bech(), OwnerAddress: O.Bech(), FeePayerAddress: payer.Bech()}
+	}
+	run(5, rec(S), SignerSpec{Acct: S}, SignerSpec{Acct: W}) // the sponsor cannot pay 5, the writer could
+	run(3, rec(S), SignerSpec{Acct: S}, SignerSpec{Acct: W}) // exactly what the sponsor has
+	run(1, rec(S), SignerSpec{Acct: S}, SignerSpec{Acct: W}) // nothing left
+	run(5, rec(O), SignerSpec{Acct: O}, SignerSpec{Acct: W}) // a solvent sponsor
+	run(5, &aoltypes.MsgAddRecordRequest{TopicName: "t", Key: []byte("k"), Value: []byte("v"), WriterAddress: W.Bech(), OwnerAddress: O.Bech()}, SignerSpec{Acct: W})
+	e.c.End()
+	e.c.Commit()
+}
+
 func txHistory(s *Stream, rng *rand.Rand, steps int) {
 	e := newTxEnv(s)
 	s.Emit("reset", "-")
@@ -618,6 +651,7 @@ func init() {
 		monC15FeeDenoms(s)
 		txImpersonation(s)
 		txDidSequence(s)
+		txSponsor(s)
 		for h := 0; h < n; h++ {
 			txHistory(s, rng, 15+rng.Intn(25))
 		}
